@@ -1,4 +1,5 @@
 """C03 — the parsed tree is the tree the SQL grammar prescribes."""
+import re
 import json, os, random, concurrent.futures
 import common
 import c03gen as G
@@ -313,6 +314,42 @@ def run_statements(rp, tier, rng):
         else:
             for f in c["feats"]: feats_ok[f] = feats_ok.get(f, 0) + 1
             combos.add(tuple(sorted(f for f in c["feats"] if ":" not in f)))
+    # --- operators outside the reference expression grammar (JSON operators and the cast operator share one level and
+    #     associate to the left): the unparenthesised chain must give the tree of its left-parenthesised spelling
+    #     (parentheses leave no node), and statements of the surface whose clauses meet a keyword of an enclosing
+    #     statement must be accepted
+    JOPS = ["->", "->>", "#>", "#>>", "@>", "<@", "?", "?|", "?&", "#-"]
+    pairs = []
+    for a in JOPS:
+        for b in JOPS:
+            pairs.append(("SELECT d %s 'a' %s 'b' FROM t" % (a, b), "SELECT (d %s 'a') %s 'b' FROM t" % (a, b)))
+        pairs.append(("SELECT d %s 'a' :: int FROM t" % a, "SELECT (d %s 'a') :: int FROM t" % a))
+        pairs.append(("SELECT d :: jsonb %s 'a' FROM t" % a, "SELECT (d :: jsonb) %s 'a' FROM t" % a))
+        pairs.append(("SELECT d %s 'a' %s 'b' %s 'c' FROM t" % (a, a, a), "SELECT ((d %s 'a') %s 'b') %s 'c' FROM t" % (a, a, a)))
+    pouts = vh_lines("c03stmt", [{"id": "assoc:%d:%d" % (i, j), "sql": q} for i, pr in enumerate(pairs) for j, q in enumerate(pr)])
+    n_assoc = 0
+    for i, pr in enumerate(pairs):
+        o1, o2 = pouts[2 * i], pouts[2 * i + 1]
+        if o1.get("panic") or o2.get("panic") or not o1["accepted"] or not o2["accepted"]:
+            if o1["accepted"] != o2["accepted"] and not (o1.get("panic") or o2.get("panic")):
+                viol.append(dict(id="assoc:%d" % i, sql=pr[0], why="accepted=%s but its left-parenthesised spelling %r accepted=%s" % (o1["accepted"], pr[1], o2["accepted"]), out=o1, want=None, feats=[], s=None))
+            continue
+        n_assoc += 1
+        d = G.tree_diff(o2["trees"][0], o1["trees"][0]) if len(o1.get("trees") or []) == 1 and len(o2.get("trees") or []) == 1 else "statement counts differ"
+        if d:
+            viol.append(dict(id="assoc:%d" % i, sql=pr[0], why="operators of one level associate to the left: the tree differs from the tree of %r: %s" % (pr[1], d), out=o1, want=o2["trees"][0], feats=[], s=None))
+    rp.cov["assoc_pairs_compared"] = n_assoc
+    MUST = ["CREATE VIEW v AS SELECT a FROM t GROUP BY a WITH CHECK OPTION", "CREATE VIEW v AS SELECT a FROM t GROUP BY a WITH LOCAL CHECK OPTION",
+            "CREATE VIEW v AS SELECT a FROM t GROUP BY a, b WITH CASCADED CHECK OPTION", "CREATE MATERIALIZED VIEW mv AS SELECT a, COUNT(*) FROM t GROUP BY a WITH NO DATA",
+            "CREATE MATERIALIZED VIEW mv AS SELECT a FROM t GROUP BY a WITH DATA", "CREATE VIEW v AS SELECT a FROM t WHERE a = 1 WITH CHECK OPTION",
+            "CREATE VIEW v AS SELECT a FROM t ORDER BY a WITH CHECK OPTION", "CREATE VIEW v AS SELECT a FROM t GROUP BY a HAVING COUNT(*) > 1 WITH CHECK OPTION",
+            "CREATE MATERIALIZED VIEW mv AS SELECT a FROM t LIMIT 3 WITH NO DATA", "CREATE MATERIALIZED VIEW mv AS SELECT a FROM t UNION SELECT b FROM u WITH NO DATA"]
+    mouts = vh_lines("c03stmt", [{"id": "must:%d" % i, "sql": q} for i, q in enumerate(MUST)])
+    mbase = vh_lines("c03stmt", [{"id": "mustb:%d" % i, "sql": re.sub(r" WITH (NO DATA|DATA|(LOCAL |CASCADED )?CHECK OPTION)$", "", q)} for i, q in enumerate(MUST)])
+    for i, (q, o, b) in enumerate(zip(MUST, mouts, mbase)):
+        # the statement without its trailing WITH ... option is accepted: then the one with the option must be too
+        if b["accepted"] and not o["accepted"]:
+            viol.append(dict(id="must:%d" % i, sql=q, why="rejected (%s) although the same statement without its trailing WITH option is accepted: a clause of the query took the WITH of the enclosing statement" % o.get("code"), out=o, want=None, feats=[], s=None))
     rp.cov["stmt_cases"] = len(cases)
     rp.cov["stmt_fraction_rejected"] = round(rejected / max(1, len(cases)), 4)
     rp.cov["stmt_features_held"] = dict(sorted(feats_ok.items()))
